@@ -156,3 +156,64 @@ contract('loader.BaseLoader.loadFile', params={'file': 'Ref[File]', 'url': ('Opt
                        then=[Clause('not file.is_open and GHOST.open_files == old(GHOST.open_files) - '
                                     '(1 if old(file.is_open) else 0)', carries='C19', label='callers-file-closed-on-failure')],
                        carries='C07,C19', label='load-failed')])
+
+# ---- the composite handler (C16) ------------------------------------------------------------------------------------
+import spec.handlers as SH
+spec_module(SH)
+HMAP = 'Map[str, Opt[Fun[handler]]]'
+CALL = 'Tuple[Fun[handler], Opaque[PyVal]]'
+MODELS['Ghost'].fields['calls'] = 'Seq[%s]' % CALL
+assumed('fun:handler', params={'fn': 'Fun[handler]', 'x': 'Opaque[PyVal]'}, returns='Opaque[PyVal]',
+        modifies=['GHOST.calls'],
+        ensures=[Clause('GHOST.calls == old(GHOST.calls) + [(fn, x)]')],
+        raises=[Raise('Exception+', then=[Clause('GHOST.calls == old(GHOST.calls) + [(fn, x)]')])],
+        notes='a handler callable supplied by the application: opaque, may raise anything; the ghost '
+              'sequence GHOST.calls records every invocation (callable, argument) in order')
+prim('reg_get', 'Ref[Registry], str -> Fun[kt]')
+assumed('Registry.get', self_type='Registry', params={'name': 'str'}, returns='Fun[kt]', pure=True,
+        ensures=[Clause('result == reg_get(self, name)')],
+        notes="datatypes.Registry.get: the registered conversion; that 'basic-key' is the stock "
+              'basic-key conversion is the binding obligation bind:datatypes:registry-get-is-stock')
+model('loader.CompositeHandler', fields={'_handlers': 'Ref[list:handlers]', '_convert': 'Fun[kt]'})
+contract('loader.CompositeHandler.__init__',
+         params={'handlers': 'Ref[list:handlers]', 'schema': 'Ref[info.SectionType]'},
+         ensures=[Clause('self._handlers == handlers', carries='C16', label='entries-are-the-matchers-handler-list'),
+                  Clause("self._convert == reg_get(schema.registry, 'basic-key')", carries='C16',
+                         label='names-normalised-as-basic-keys')])
+contract('loader.CompositeHandler.__len__', returns='int',
+         ensures=[Clause('result == len(self._handlers.items)', carries='C16', label='one-per-entry')])
+NM = 'norm_map(handlermap, self._convert, 0, {})'
+HS = 'self._handlers.items'
+contract('loader.CompositeHandler.__call__', params={'handlermap': HMAP},
+         modifies=['GHOST.calls'],
+         ensures=[Clause('%s[0] == 0 and all_mapped(%s, %s[1], 0)' % (NM, HS, NM), carries='C16',
+                         label='every-name-mapped-and-unique'),
+                  Clause('GHOST.calls == old(GHOST.calls) + calls_from(%s, %s[1], 0)' % (HS, NM), carries='C16',
+                         label='each-entry-called-exactly-once-in-order-with-its-value')],
+         raises=[Raise('ZConfig.ConfigurationError',
+                       when='%s[0] == 1 or (%s[0] == 0 and not all_mapped(%s, %s[1], 0))' % (NM, NM, HS, NM),
+                       then=[Clause('GHOST.calls == old(GHOST.calls)', carries='C16', label='nothing-called')],
+                       carries='C16', label='duplicate-or-unmapped-name'),
+                 Raise('ValueError', when='%s[0] == 2' % NM,
+                       then=[Clause('GHOST.calls == old(GHOST.calls)', carries='C16', label='nothing-called')],
+                       label='name-is-not-a-basic-key'),
+                 Raise('Exception+',
+                       then=[Clause('is_prefix(GHOST.calls, old(GHOST.calls) + calls_from(%s, %s[1], 0))'
+                                    % (HS, NM), carries='C16', label='calls-made-are-a-prefix-in-order')],
+                       label='a-handler-raised')],
+         hints=['norm_map(handlermap, self._convert, _i0, d)', 'all_mapped(%s, d, _i1)' % HS, 'all_mapped(%s, d, _i2)' % HS,
+                'calls_from(%s, d, _i2)' % HS],
+         loops=[Loop(invariant=[Clause('norm_map(handlermap, self._convert, _i0, d) == %s' % NM,
+                                       label='remaining-fold-equals-fold')],
+                     hints=['norm_map(handlermap, self._convert, _i0, d)'],
+                     locals={'d': HMAP, 'name': 'str', 'callback': 'Opt[Fun[handler]]', 'n': 'str'}, modifies=[]),
+                Loop(invariant=[Clause('(len(L) == 0 and all_mapped(%s, d, _i1)) == all_mapped(%s, d, 0)' % (HS, HS),
+                                       label='unmapped-collected')],
+                     hints=['all_mapped(%s, d, _i1)' % HS],
+                     locals={'L': 'Seq[str]', 'handler': 'str', 'value': 'Opaque[PyVal]'}, modifies=[]),
+                Loop(invariant=[Clause('GHOST.calls + calls_from(%s, d, _i2) == old(GHOST.calls) + calls_from(%s, d, 0)'
+                                       % (HS, HS), label='calls-so-far-plus-remaining'),
+                                Clause('all_mapped(%s, d, _i2)' % HS, label='remaining-entries-mapped')],
+                     hints=['calls_from(%s, d, _i2)' % HS, 'all_mapped(%s, d, _i2)' % HS],
+                     locals={'handler': 'str', 'value': 'Opaque[PyVal]', 'f': 'Opt[Fun[handler]]'},
+                     modifies=['GHOST.calls'])])
